@@ -161,6 +161,12 @@ func (h *fakeHQ) urls(w http.ResponseWriter, r *http.Request) {
 			h.activity()
 			return
 		}
+		if r.Context().Err() != nil {
+			// the client gave up during the stall: claiming URLs now would hand them to nobody
+			h.record(hqCall{Kind: "get", N: n, Fault: what + "-abandoned"})
+			h.activity()
+			return
+		}
 		h.mu.Lock()
 		var out []hqURL
 		for len(h.queue) > 0 && len(out) < max(1, size) {
@@ -174,8 +180,12 @@ func (h *fakeHQ) urls(w http.ResponseWriter, r *http.Request) {
 		b, _ := json.Marshal(out)
 		w.Header().Set("Content-Type", "application/json")
 		w.WriteHeader(200)
-		w.Write(b)
-		h.record(hqCall{Kind: "get", N: n, Fault: what, Status: 200, URLs: out, Success: true})
+		_, werr := w.Write(b)
+		if fl, ok := w.(http.Flusher); ok {
+			fl.Flush()
+		}
+		// Success = the answer was written to a client that was still there
+		h.record(hqCall{Kind: "get", N: n, Fault: what, Status: 200, URLs: out, Success: werr == nil && r.Context().Err() == nil})
 		h.activity()
 	case http.MethodPost:
 		var p struct {
